@@ -199,9 +199,43 @@ func (c *Client) readLoop()
 func (c *Client) writeLoop()
   trusted
 
+// C16: a connection that is admitted is registered under its client id (replacing a superseded one, which is
+// closed), gets its session from setSession, and the subscriptions of the session it got are registered with
+// the topic manager again before the read loop starts
+ghost var hcValid bool      // the CONNECT passed validation
+ghost var hcRefused bool    // refused because of the cap
+ghost var hcClient int      // the new client object
+ghost var hcCid string
+ghost var hcTopics int      // topic list read back from the session
+ghost var hcNTopics int
+ghost var hcSubscribed int  // topic list handed to TopicManager.subscribe (0: not called)
+ghost var hcWrote bool      // CONNACK written
+
 func (b *Broker) handleConn(conn net.Conn)
   flag frame=unchecked
   requires b != nil && b.spec != nil && b.sessMgr != nil && b.topicMgr != nil && conn != nil
+  ensures an-admitted-connection-is-registered-under-its-id: hcValid && !hcRefused ==> hcRegisteredAs == hcClient
+  ensures a-resumed-sessions-subscriptions-are-registered-again: hcValid && !hcRefused && hcWrote && hcNTopics > 0 ==> hcSubscribed == hcTopics && hcSubscribedFor == hcCid
+  ensures a-refused-connection-is-not-registered: hcRefused ==> hcRegisteredAs == 0
+  ghost at entry: hcValid := false
+  ghost at entry: hcRefused := false
+  ghost at entry: hcRegisteredAs := 0
+  ghost at entry: hcSubscribed := 0
+  ghost at entry: hcWrote := false
+  ghost at entry: hcNTopics := 0
+  ghost at call[1] connectionValidation: hcValid := valid
+  ghost at call[1] connectionValidation: hcClient := ref(client)
+  ghost at call[1] Write: hcRefused := true
+  ghost at call[1] setSession: hcRegisteredAs := ref(b.clients[client.info.cid])
+  ghost at call[1] setSession: hcCid := client.info.cid
+  ghost at call[2] Write: hcWrote := err == nil
+  ghost at call[1] allSubscribes: hcTopics := ref(topics)
+  ghost at call[1] allSubscribes: hcNTopics := len(topics)
+  ghost at call[1] subscribe: hcSubscribed := ref(topics)
+  ghost at call[1] subscribe: hcSubscribedFor := clientID
+
+ghost var hcRegisteredAs int
+ghost var hcSubscribedFor string
 
 // ---- C13 / C09: the MQTT limiters are always built over a positive refresh period ----
 func newLimiter(spec *RateLimit) (l *Limiter)
